@@ -49,7 +49,8 @@ type ProcContract struct {
 	Ghosts     []GhostDef
 	Requires   []Clause
 	Ensures    []Clause
-	PanicsWhen []Clause
+	PanicsWhen []Clause // exact: panics if and only if one of these holds (at entry)
+	MayPanic   []Clause // the function may panic when one of these holds; it may also return
 	Pure       bool
 	Inline     bool
 	Trusted    bool
@@ -386,7 +387,7 @@ func ParseContractFile(path string) (*ContractFile, error) {
 					return nil, fmt.Errorf("%s:%d: %v", path, n, err)
 				}
 				cur.Ghosts = append(cur.Ghosts, GhostDef{strings.TrimSpace(nm), e, rest, n})
-			case "requires", "ensures", "panics_when":
+			case "requires", "ensures", "panics_when", "may_panic_when":
 				c, err := clause(rest, n)
 				if err != nil {
 					return nil, err
@@ -396,6 +397,8 @@ func ParseContractFile(path string) (*ContractFile, error) {
 					cur.Requires = append(cur.Requires, c)
 				case "ensures":
 					cur.Ensures = append(cur.Ensures, c)
+				case "may_panic_when":
+					cur.MayPanic = append(cur.MayPanic, c)
 				default:
 					cur.PanicsWhen = append(cur.PanicsWhen, c)
 				}
